@@ -229,6 +229,35 @@ def oracle_cases(rng, hints):
         yield cs['A'], cs['v'], m, d, dt, hermA, lr
 
 
+def f15_instance(scale, numiter):
+    """the listed input of known finding F15: a Hermitian 16 x 16 matrix with spectrum scale * linspace(-1, 1, 16) and a start
+    vector supported on 6 eigenvectors (Krylov dimension 6, smallest reachable eigenvalue -scale / 3);
+    returns (number of Lanczos vectors, lowest Ritz value / scale)"""
+    import pytenet as ptn
+    rng = np.random.default_rng(3)
+    n = 16
+    Q, _ = np.linalg.qr(ptn.crandn((n, n), rng))
+    d = scale * np.linspace(-1, 1, n)
+    A = (Q * d) @ Q.conj().T
+    A = 0.5 * (A + A.conj().T)
+    v = Q[:, [5, 7, 8, 10, 12, 14]] @ ptn.crandn(6, rng)
+    w, _u = ptn.eigh_krylov(lambda x: A @ x, v, numiter, 1)
+    al, _be, _V = ptn.lanczos_iteration(lambda x: A @ x, v, numiter)
+    return len(al), float(w[0]) / scale
+
+
+def known_findings_present(k):
+    """F15: the listed input, replayed on the real code on every run"""
+    if k.get('key') != 'ritz-past-exhaustion':
+        return False
+    try:
+        n1, r1 = f15_instance(1.0, 10)      # breakdown detected: 6 vectors, reachable minimum -1/3
+        n10, r10 = f15_instance(10.0, 10)   # rounding noise above the absolute threshold: 10 vectors, Ritz value near -1
+    except Exception:
+        return False
+    return n1 == 6 and abs(r1 + 1 / 3) < 1e-9 and n10 > 6 and r10 < -0.5
+
+
 def search(tier, seed, hints, budget_s):
     t0 = time.time()
     rng = np.random.default_rng([seed, 1515])
